@@ -124,6 +124,20 @@ def bindings(fnode) -> List[Tuple[str, str, str]]:
                     al.name, n)
         elif isinstance(n, ast.NamedExpr):
             targets(n.target, 'walrus', _unparse(n.value), n)
+    # comprehension variables (own scopes, but renamed with the rest of the
+    # function when a clean-up renames them): kind 'comp', text = iterable
+    todo = list(ast.iter_child_nodes(fnode))
+    while todo:
+        n = todo.pop()
+        if isinstance(n, FN + (ast.ClassDef, ast.Lambda)):
+            continue
+        if isinstance(n, (ast.ListComp, ast.SetComp, ast.DictComp,
+                          ast.GeneratorExp)):
+            for g in n.generators:
+                for t in ast.walk(g.target):
+                    if isinstance(t, ast.Name) and t.id not in found:
+                        add(t.id, 'comp', _unparse(g.iter), t)
+        todo.extend(ast.iter_child_nodes(n))
     out = sorted((pos, name, kind, rhs) for name, (pos, kind, rhs)
                  in found.items())
     return [(name, kind, rhs) for _pos, name, kind, rhs in out]
@@ -242,6 +256,22 @@ def _strip_doc(body):
     return body
 
 
+def _as_expr(stmts):
+    """The single expression a body of `return`s denotes, or None:
+    [return e] -> e;  [if c: A (else: B)] + rest -> (A if c else B+rest)."""
+    if len(stmts) == 1 and isinstance(stmts[0], ast.Return) and \
+            stmts[0].value is not None:
+        return stmts[0].value
+    if stmts and isinstance(stmts[0], ast.If):
+        s, rest = stmts[0], list(stmts[1:])
+        a = _as_expr(s.body)
+        b = _as_expr(list(s.orelse) + rest) if (s.orelse or rest) else None
+        if a is not None and b is not None:
+            e = ast.IfExp(test=s.test, body=a, orelse=b)
+            return ast.copy_location(e, s)
+    return None
+
+
 class _Helper:
     """A new function and what shape of inlining it admits."""
 
@@ -278,8 +308,8 @@ class _Helper:
                         and n.func.id == f.name)):
                 return False      # recursive
         rets = [n for n in ast.walk(f) if isinstance(n, ast.Return)]
-        if len(body) == 1 and isinstance(body[0], ast.Return) and \
-                body[0].value is not None:
+        if _as_expr(body) is not None:
+            # `return e`, or a chain of `if c: return a` ... `return b`
             self.kind = 'expr'
             return True
         valued = [r for r in rets if r.value is not None]
@@ -400,7 +430,10 @@ def _expand(helper: _Helper, binding: dict, caller_names: set, tag: str,
     sub = _Subst(exprs, renames)
     body = [sub.visit(s) for s in body]
     value = None
-    if helper.kind in ('expr', 'value'):
+    if helper.kind == 'expr':
+        value = _as_expr(body)
+        body = []
+    elif helper.kind == 'value':
         value = body[-1].value
         body = body[:-1]
     elif body and isinstance(body[-1], ast.Return):
@@ -730,6 +763,18 @@ def _t2_rename(rel, tree, ref_funcs, notes):
                     appeared.remove(a)
                     inv[v[0]] = a[0]
                     progress = True
+        # 2b. what is left has the same length and the same sequence of
+        #     binding kinds in source order: a pure renaming, pair by order
+        #     (only when the texts agree once all pairs are applied)
+        if vanished and len(vanished) == len(appeared) and [
+                v[1] for v in vanished] == [a[1] for a in appeared]:
+            trial = dict(renames)
+            trial.update({a[0]: v[0] for v, a in zip(vanished, appeared)})
+            inv = {o: n for n, o in trial.items()}
+            if all(_translate(v[2], inv) == a[2]
+                   for v, a in zip(vanished, appeared)):
+                renames = trial
+                vanished, appeared = [], []
         # 3. leftovers of one kind, pairwise in binding order, when the
         #    counts agree (arguments only by position)
         for kind in ('arg', 'for', 'with', 'except'):
@@ -818,6 +863,130 @@ def _blocks(fnode):
 
 
 _UNSTABLE: Dict[int, Tuple[ast.AST, set]] = {}
+_ALL_TREES: Optional[Dict[str, ast.AST]] = None
+_EFFECTS: Dict[int, Tuple[ast.AST, dict]] = {}
+
+
+def _effects(tree) -> dict:
+    """name -> [(called names, stored attribute names)] for every function
+    of a module (cached per tree)."""
+    hit = _EFFECTS.get(id(tree))
+    if hit is not None and hit[0] is tree:
+        return hit[1]
+    out: Dict[str, list] = {}
+    for f in ast.walk(tree):
+        if not isinstance(f, FN):
+            continue
+        calls, stores = set(), set()
+        for n in ast.walk(f):
+            if isinstance(n, ast.Call):
+                fn_ = n.func
+                nm = fn_.attr if isinstance(fn_, ast.Attribute) else getattr(
+                    fn_, 'id', None)
+                if nm:
+                    calls.add(nm)
+                if nm in ('setattr', 'delattr') and len(n.args) >= 2:
+                    a = n.args[1]
+                    stores.add(a.value if isinstance(a, ast.Constant)
+                               else '*')
+            elif isinstance(n, ast.Attribute) and isinstance(
+                    n.ctx, (ast.Store, ast.Del)):
+                stores.add(n.attr)
+        out.setdefault(f.name, []).append((calls, stores))
+    _EFFECTS[id(tree)] = (tree, out)
+    return out
+
+
+def _may_store(trees, attrs: set, called: set, depth: int = 4) -> bool:
+    """Can a call to one of `called` (resolved by name over the whole
+    package, transitively to `depth`) assign one of the attribute names?"""
+    # exhaustive reverse closure: R = every function *name* from which (by
+    # name, over all definitions of that name in the package) a function
+    # that assigns one of the attributes -- or uses setattr -- is reachable
+    key = (id(trees), len(trees), tuple(sorted(attrs)))
+    reach = _REACH.get(key)
+    if reach is None:
+        eff: Dict[str, list] = {}
+        for t in trees.values():
+            for name, lst in _effects(t).items():
+                eff.setdefault(name, []).extend(lst)
+        # (setattr with a computed name is not counted: assumption A-alias,
+        # stated in DESIGN 9.1a -- otherwise every function reaching any
+        # generic option/protobuf setter would count as a writer)
+        reach = {n for n, lst in eff.items()
+                 if any(s & attrs for _c, s in lst)}
+        changed = True
+        while changed:
+            changed = False
+            for n, lst in eff.items():
+                if n not in reach and any(c & reach for c, _s in lst):
+                    reach.add(n)
+                    changed = True
+        if len(_REACH) > 64:
+            _REACH.clear()
+        _REACH[key] = reach
+    return bool(set(called) & reach)
+
+
+_REACH: Dict[tuple, set] = {}
+
+
+def _class_of(tree, qual: str):
+    """ClassDef enclosing the function with this qualname (top level)."""
+    if '.' not in qual:
+        return None
+    cname = qual.split('.')[0]
+    for n in tree.body:
+        if isinstance(n, ast.ClassDef) and n.name == cname:
+            return n
+    return None
+
+
+def _self_refs(nodes) -> set:
+    return {n.attr for st in nodes for n in ast.walk(st)
+            if isinstance(n, ast.Attribute) and isinstance(n.value, ast.Name)
+            and n.value.id in ('self', 'cls')}
+
+
+def _self_closure_stores(tree, cls, span, attrs: set) -> bool:
+    """Does the span, or any method of cls (or of its bases defined in this
+    module) reachable from it through `self.<name>` references, assign one
+    of the attribute names?"""
+    methods: Dict[str, list] = {}
+    todo_cls = [cls]
+    seen_cls = set()
+    while todo_cls:
+        k = todo_cls.pop()
+        if id(k) in seen_cls:
+            continue
+        seen_cls.add(id(k))
+        for m in k.body:
+            if isinstance(m, FN):
+                methods.setdefault(m.name, []).append(m)
+        for b in k.bases:
+            bn = b.id if isinstance(b, ast.Name) else getattr(b, 'attr', None)
+            for n in tree.body:
+                if isinstance(n, ast.ClassDef) and n.name == bn:
+                    todo_cls.append(n)
+
+    def stores(nodes):
+        return any(isinstance(n, ast.Attribute) and isinstance(
+            n.ctx, (ast.Store, ast.Del)) and n.attr in attrs
+            for st in nodes for n in ast.walk(st))
+    if stores(span):
+        return True
+    seen = set()
+    frontier = _self_refs(span)
+    while frontier:
+        name = frontier.pop()
+        if name in seen:
+            continue
+        seen.add(name)
+        for m in methods.get(name, []):
+            if stores([m]):
+                return True
+            frontier |= _self_refs([m]) - seen
+    return False
 
 
 def _unstable_attrs(tree) -> set:
@@ -929,9 +1098,27 @@ def _propagate_one(rel, q, f, name, notes, tree=None):
                 ast.UnaryOp, ast.Compare, ast.BinOp, ast.IfExp, ast.boolop,
                 ast.unaryop, ast.cmpop, ast.operator, ast.expr_context))
                 for n in ast.walk(rhs))
-            if not (pure and chain_only and not (
-                    rhs_attrs & _unstable_attrs(tree))):
+            if not (pure and chain_only):
                 return
+            if rhs_attrs & _unstable_attrs(tree):
+                # assigned somewhere in this module.  Accepted only for an
+                # alias rooted at `self` inside a class, when no method of
+                # that class reachable from the span through `self.m` (called
+                # or passed as a callback; closure within the class and its
+                # in-module bases) assigns one of the attributes.  Assumption
+                # A-alias (DESIGN 9.1a): calls on *other* objects do not
+                # re-bind attributes of `self` behind its back.
+                root = rhs
+                while isinstance(root, ast.Attribute):
+                    root = root.value
+                if not (isinstance(root, ast.Name) and root.id == 'self'):
+                    return
+                cls = _class_of(tree, q)
+                if cls is None:
+                    return
+                if _self_closure_stores(tree, cls, before + [span[-1]],
+                                        rhs_attrs):
+                    return
         # stores inside the last-use statement itself (e.g. a loop body)
         if _stored_names(span[-1]) & rhs_names and not isinstance(
                 span[-1], (ast.Assign, ast.AnnAssign, ast.AugAssign,
@@ -986,13 +1173,34 @@ def _t0_canon_ifs(tree) -> int:
     a rule sees the same shape whichever the source uses."""
     n = 0
 
-    def canon_block(blk):
+    def canon_block(blk, loop_body=False):
         nonlocal n
         changed = True
         while changed:
             changed = False
             out = []
-            for s in blk:
+            for k, s in enumerate(blk):
+                # directly in a loop body: `if c: continue` + rest  ->
+                # `if not c: rest` (the rest runs to the end of the iteration)
+                if loop_body and isinstance(s, ast.If) and not s.orelse \
+                        and len(s.body) == 1 and isinstance(
+                            s.body[0], ast.Continue) and k + 1 < len(blk):
+                    if isinstance(s.test, ast.UnaryOp) and isinstance(
+                            s.test.op, ast.Not):
+                        neg = s.test.operand
+                    else:
+                        neg = ast.UnaryOp(op=ast.Not(), operand=s.test)
+                        ast.copy_location(neg, s.test)
+                        neg.end_lineno = getattr(s.test, 'end_lineno', None)
+                    new = ast.If(test=neg, body=list(blk[k + 1:]), orelse=[])
+                    ast.copy_location(new, s)
+                    new.end_lineno = getattr(blk[-1], 'end_lineno', None)
+                    out.append(new)
+                    canon_block(new.body)
+                    changed = True
+                    n += 1
+                    blk[:] = out
+                    break
                 if isinstance(s, ast.If) and s.orelse and _exits(s.body):
                     rest = s.orelse
                     s.orelse = []
@@ -1031,9 +1239,8 @@ def _t0_canon_ifs(tree) -> int:
             if isinstance(blk, list) and blk and isinstance(blk[0], ast.stmt):
                 for s in list(blk):
                     rec(s)
-                canon_block(blk)
-                for s in blk:
-                    pass
+                canon_block(blk, loop_body=(field == 'body' and isinstance(
+                    node, (ast.For, ast.AsyncFor, ast.While))))
         for h in getattr(node, 'handlers', []) or []:
             rec(h)
         for c in getattr(node, 'cases', []) or []:
@@ -1042,15 +1249,318 @@ def _t0_canon_ifs(tree) -> int:
     return n
 
 
+def _simple_target(e) -> bool:
+    return isinstance(e, ast.Name) or (
+        isinstance(e, ast.Attribute) and _simple_target(e.value))
+
+
+def _t0_canon_stmts(tree) -> int:
+    """More canonical spellings (every module, also the reference tree):
+      x = a if c else b            ->  if c: x = a  else: x = b
+      return a if c else b         ->  if c: return a ; return b
+      T = T + <number>  (T a name / attribute chain)   ->  T += <number>
+      X = [] ; for v in S: [if c:] X.append(e)   ->  X = [e for v in S if c]
+         (only when v is used nowhere else in the function, X occurs in the
+          loop only as the append receiver, no else/await/yield/walrus)
+    Each pair is the same program; rules then see one shape."""
+    n = 0
+    for f in [x for x in ast.walk(tree) if isinstance(x, FN)]:
+        counts: Dict[str, int] = {}
+        for x in ast.walk(f):
+            if isinstance(x, ast.Name):
+                counts[x.id] = counts.get(x.id, 0) + 1
+
+        def canon_block(blk, counts=counts, f=f):
+            nonlocal n
+            out = []
+            i = 0
+            while i < len(blk):
+                s = blk[i]
+                nxt = blk[i + 1] if i + 1 < len(blk) else None
+                # ---- loop-with-append -> comprehension
+                if isinstance(s, ast.Assign) and len(s.targets) == 1 and \
+                        isinstance(s.targets[0], ast.Name) and isinstance(
+                            s.value, ast.List) and not s.value.elts and \
+                        isinstance(nxt, ast.For) and not nxt.orelse and \
+                        len(nxt.body) == 1:
+                    x = s.targets[0].id
+                    # nested `for` / `if` chain down to the append
+                    gens = []
+                    inner = nxt
+                    while True:
+                        if isinstance(inner, ast.For) and not inner.orelse \
+                                and len(inner.body) == 1:
+                            gens.append([inner.target, inner.iter, []])
+                            inner = inner.body[0]
+                        elif isinstance(inner, ast.If) and not inner.orelse \
+                                and len(inner.body) == 1 and gens:
+                            gens[-1][2].append(inner.test)
+                            inner = inner.body[0]
+                        else:
+                            break
+                    if isinstance(inner, ast.Expr) and isinstance(
+                            inner.value, ast.Call) and isinstance(
+                            inner.value.func, ast.Attribute) and \
+                            inner.value.func.attr == 'append' and \
+                            isinstance(inner.value.func.value, ast.Name) \
+                            and inner.value.func.value.id == x and len(
+                                inner.value.args) == 1 and not \
+                            inner.value.keywords and not isinstance(
+                                inner.value.args[0], ast.Starred):
+                        tv = {t.id for g in gens for t in ast.walk(g[0])
+                              if isinstance(t, ast.Name)}
+                        inside: Dict[str, int] = {}
+                        for y in ast.walk(nxt):
+                            if isinstance(y, ast.Name):
+                                inside[y.id] = inside.get(y.id, 0) + 1
+                        plain_target = all(isinstance(t, (
+                            ast.Name, ast.Tuple, ast.List, ast.expr_context))
+                            for g in gens for t in ast.walk(g[0]))
+                        if plain_target and all(
+                                counts.get(v, 0) == inside.get(v, 0)
+                                or not _live_across(f, v, nxt)
+                                for v in tv) and inside.get(x, 0) == 1 and \
+                                not any(isinstance(y, (
+                                    ast.Await, ast.Yield, ast.YieldFrom,
+                                    ast.NamedExpr)) for y in ast.walk(nxt)):
+                            comp = ast.ListComp(
+                                elt=inner.value.args[0], generators=[
+                                    ast.comprehension(
+                                        target=g[0], iter=g[1], ifs=g[2],
+                                        is_async=0) for g in gens])
+                            ast.copy_location(comp, s.value)
+                            comp.end_lineno = getattr(nxt, 'end_lineno',
+                                                      getattr(s, 'lineno', 0))
+                            s.value = comp
+                            s.end_lineno = comp.end_lineno
+                            out.append(s)
+                            i += 2
+                            n += 1
+                            continue
+                # ---- for x in S: if c: return K   ->   if any(c for x in S):
+                #      return K        (K a constant; x used nowhere else)
+                #      (several `if c_i: return K` with the same K: any(c_1 or
+                #      c_2 ...))
+                if isinstance(s, ast.For) and not s.orelse and s.body and all(
+                        isinstance(b, ast.If) and not b.orelse and len(
+                            b.body) == 1 and isinstance(
+                            b.body[0], ast.Return) and isinstance(
+                            b.body[0].value, ast.Constant)
+                        and b.body[0].value.value ==
+                        s.body[0].body[0].value.value
+                        and type(b.body[0].value.value) is type(
+                            s.body[0].body[0].value.value)
+                        for b in s.body):
+                    tv = {t.id for t in ast.walk(s.target)
+                          if isinstance(t, ast.Name)}
+                    inside = {}
+                    for y in ast.walk(s):
+                        if isinstance(y, ast.Name):
+                            inside[y.id] = inside.get(y.id, 0) + 1
+                    if all(isinstance(t, (ast.Name, ast.Tuple, ast.List,
+                                          ast.expr_context))
+                           for t in ast.walk(s.target)) and all(
+                            counts.get(v, 0) == inside.get(v, 0)
+                            or not _live_across(f, v, s)
+                            for v in tv) and not any(isinstance(y, (
+                                ast.Await, ast.Yield, ast.YieldFrom,
+                                ast.NamedExpr)) for y in ast.walk(s)):
+                        tests = [b.test for b in s.body]
+                        elt = tests[0] if len(tests) == 1 else ast.BoolOp(
+                            op=ast.Or(), values=tests)
+                        if len(tests) > 1:
+                            ast.copy_location(elt, tests[0])
+                        gen = ast.GeneratorExp(
+                            elt=elt, generators=[
+                                ast.comprehension(target=s.target,
+                                                  iter=s.iter, ifs=[],
+                                                  is_async=0)])
+                        call = ast.Call(func=ast.Name(id='any',
+                                                      ctx=ast.Load()),
+                                        args=[gen], keywords=[])
+                        new = ast.If(test=call, body=s.body[0].body,
+                                     orelse=[])
+                        ast.copy_location(new, s)
+                        for t in (call, gen, call.func):
+                            ast.copy_location(t, s)
+                        out.append(new)
+                        i += 1
+                        n += 1
+                        continue
+                # ---- x = a if c else b  /  return a if c else b
+                if isinstance(s, (ast.Assign, ast.Return)) and isinstance(
+                        getattr(s, 'value', None), ast.IfExp) and (
+                        isinstance(s, ast.Return) or (
+                            len(s.targets) == 1 and isinstance(
+                                s.targets[0], ast.Name))):
+                    v = s.value
+
+                    def arm(val, s=s):
+                        if isinstance(s, ast.Return):
+                            r = ast.Return(value=val)
+                        else:
+                            r = ast.Assign(targets=[ast.Name(
+                                id=s.targets[0].id, ctx=ast.Store())],
+                                value=val)
+                        ast.copy_location(r, val)
+                        for t in ast.walk(r):
+                            if not hasattr(t, 'lineno') and isinstance(
+                                    t, (ast.expr, ast.stmt)):
+                                ast.copy_location(t, val)
+                        return r
+                    new = ast.If(test=v.test, body=[arm(v.body)],
+                                 orelse=[] if isinstance(s, ast.Return)
+                                 else [arm(v.orelse)])
+                    ast.copy_location(new, s)
+                    out.append(new)
+                    if isinstance(s, ast.Return):
+                        out.append(arm(v.orelse))
+                    i += 1
+                    n += 1
+                    continue
+                # ---- T = T + <number>  ->  T += <number>
+                if isinstance(s, ast.Assign) and len(s.targets) == 1 and \
+                        _simple_target(s.targets[0]) and isinstance(
+                            s.value, ast.BinOp) and isinstance(
+                            s.value.op, (ast.Add, ast.Sub)) and isinstance(
+                            s.value.right, ast.Constant) and isinstance(
+                            s.value.right.value, (int, float)) and not \
+                        isinstance(s.value.right.value, bool) and \
+                        _unparse(s.value.left) == _unparse(s.targets[0]):
+                    new = ast.AugAssign(target=s.targets[0], op=s.value.op,
+                                        value=s.value.right)
+                    ast.copy_location(new, s)
+                    out.append(new)
+                    i += 1
+                    n += 1
+                    continue
+                out.append(s)
+                i += 1
+            blk[:] = out
+
+        def rec(node):
+            for field in ('body', 'orelse', 'finalbody'):
+                blk = getattr(node, field, None)
+                if isinstance(blk, list) and blk and isinstance(
+                        blk[0], ast.stmt):
+                    for s in list(blk):
+                        if not isinstance(s, FN + (ast.ClassDef,)):
+                            rec(s)
+                    canon_block(blk)
+            for h in getattr(node, 'handlers', []) or []:
+                rec(h)
+            for c in getattr(node, 'cases', []) or []:
+                rec(c)
+        rec(f)
+    return n
+
+
+def _t0_name_aliases(tree) -> int:
+    """`v = w` where v is bound exactly once in the function, w is a plain
+    name that is not re-bound anywhere after that statement, and every read
+    of v comes after it: v is just another name for w.  Reads of v become w
+    and the assignment goes (always-on: a rule then never depends on whether
+    the source keeps such an alias)."""
+    n = 0
+    for f in [x for x in ast.walk(tree) if isinstance(x, FN)]:
+        if any(isinstance(x, (ast.Global, ast.Nonlocal)) for x in ast.walk(f)):
+            continue
+        again = True
+        while again:
+            again = False
+            for owner, field, block in _blocks(f):
+                for i, s in enumerate(block):
+                    if not (isinstance(s, ast.Assign) and len(s.targets) == 1
+                            and isinstance(s.targets[0], ast.Name)
+                            and isinstance(s.value, ast.Name)
+                            and s.targets[0].id != s.value.id):
+                        continue
+                    v, w = s.targets[0].id, s.value.id
+                    line = getattr(s, 'lineno', 0)
+                    names = [x for x in ast.walk(f) if isinstance(x, ast.Name)
+                             and x.id in (v, w)]
+                    args = {a.arg for a in ast.walk(f)
+                            if isinstance(a, ast.arg)}
+                    v_st = [x for x in names if x.id == v and isinstance(
+                        x.ctx, (ast.Store, ast.Del))]
+                    if len(v_st) != 1 or v in args:
+                        continue
+                    v_use_lines = [getattr(x, 'end_lineno', None) or getattr(
+                        x, 'lineno', 0) for x in names if x.id == v
+                        and isinstance(x.ctx, ast.Load)]
+                    last_use = max(v_use_lines) if v_use_lines else line
+                    # w must keep its value up to the last read of v
+                    if any(x.id == w and isinstance(
+                            x.ctx, (ast.Store, ast.Del)) and line <= getattr(
+                            x, 'lineno', 0) <= last_use and x is not s.value
+                            for x in names):
+                        continue
+                    # in a loop an earlier store of w runs again later
+                    in_loop = False
+                    for lp in ast.walk(f):
+                        if isinstance(lp, (ast.For, ast.AsyncFor, ast.While)) \
+                                and any(y is s for y in ast.walk(lp)):
+                            if any(x.id == w and isinstance(
+                                    x.ctx, (ast.Store, ast.Del))
+                                    and any(y is x for y in ast.walk(lp))
+                                    and not (isinstance(lp, (
+                                        ast.For, ast.AsyncFor)) and any(
+                                        t is x for t in ast.walk(lp.target)))
+                                    for x in names):
+                                in_loop = True
+                    if in_loop:
+                        continue
+                    v_ld = [x for x in names if x.id == v and isinstance(
+                        x.ctx, ast.Load)]
+                    if any(getattr(x, 'lineno', 0) <= line for x in v_ld):
+                        continue
+                    # nested scopes that re-bind w or v would capture
+                    if any(isinstance(x, (ast.Lambda,) + FN) and x is not f
+                           and ({v, w} & {a.arg for a in ast.walk(x.args)
+                                         if isinstance(a, ast.arg)})
+                           for x in ast.walk(f)):
+                        continue
+                    comp_bound = set()
+                    for x in ast.walk(f):
+                        if isinstance(x, ast.comprehension):
+                            comp_bound |= {t.id for t in ast.walk(x.target)
+                                           if isinstance(t, ast.Name)}
+                    if v in comp_bound or w in comp_bound:
+                        continue
+                    for x in v_ld:
+                        x.id = w
+                    del block[i]
+                    if not block:
+                        block.append(ast.Pass(lineno=line, col_offset=0))
+                    n += 1
+                    again = True
+                    break
+                if again:
+                    break
+    return n
+
+
+def t0(tree) -> None:
+    """The always-on canonical spellings (the reference snapshot is taken
+    from the T0 form, too)."""
+    _t0_canon_ifs(tree)
+    a = _t0_canon_stmts(tree)
+    b = _t0_name_aliases(tree)
+    if a or b:
+        _t0_canon_ifs(tree)     # new if/else may hoist / merge
+
+
 def normalize(trees: Dict[str, ast.AST], only: Optional[set] = None,
               ref: Optional[dict] = None) -> List[str]:
     """Normalise (in place) the modules in `only` (default: all)."""
+    global _ALL_TREES
     ref = load_reference() if ref is None else ref
     notes: List[str] = []
+    _ALL_TREES = trees
     for rel in sorted(trees):
         if only is not None and rel not in only:
             continue
-        _t0_canon_ifs(trees[rel])
+        t0(trees[rel])
         if rel not in ref:
             continue
         rf = ref[rel]
@@ -1062,5 +1572,6 @@ def normalize(trees: Dict[str, ast.AST], only: Optional[set] = None,
         _t1_inline(rel, tree, rf, trees, notes)
         _t2_rename(rel, tree, rf, notes)
         _t3_propagate(rel, tree, rf, notes)
+        t0(tree)       # expanded / substituted code in canonical spelling
         ast.fix_missing_locations(tree)
     return notes
